@@ -38,20 +38,28 @@ class Report:
         self.analysed = {}
         self.assumptions = []
         self.rules = {}            # rule id -> text
+        self._keys = {}
 
     def rule(self, rid, text):
         self.rules[rid] = text
 
+    def _key(self, rule, key):
+        """instance key: no line numbers, no closure ordinals; duplicates get #n"""
+        key = re.sub(r"\{closure#\d+\}", "{closure}", f"{rule}:{key}")
+        n = self._keys.get(key, 0) + 1
+        self._keys[key] = n
+        return key if n == 1 else f"{key}#{n}"
+
     def ob(self, rule, key, ok, msg="", detail=None, loc=None):
         """record one obligation; a failed one becomes a violation"""
-        key = f"{rule}:{key}"
+        key = self._key(rule, key)
         self.obligations.append((rule, key, bool(ok), loc or ""))
         if not ok:
             self.violations.append((rule, key, msg, detail or [], loc))
         return ok
 
     def violation(self, rule, key, msg, detail=None, loc=None):
-        key = f"{rule}:{key}"
+        key = self._key(rule, key)
         self.obligations.append((rule, key, False, loc or ""))
         self.violations.append((rule, key, msg, detail or [], loc))
 
